@@ -3,6 +3,14 @@ import IncrVerif.Proofs.BindH13
 import IncrVerif.Proofs.BindH18
 import IncrVerif.Proofs.BindH44
 import IncrVerif.Proofs.BindH79
+import IncrVerif.Proofs.BindH86
+import IncrVerif.Proofs.BindH87
+import IncrVerif.Proofs.BindH88
+import IncrVerif.Proofs.BindH97
+import IncrVerif.Proofs.BindH100
+import IncrVerif.Proofs.BindH102
+import IncrVerif.Proofs.BindH106
+import IncrVerif.Proofs.BindH111
 /-!
 # C03 (ordering) — nodes built inside a bind closure never run before the bind's change detector
 
@@ -107,9 +115,40 @@ nodes OLDER than the bind (`.outer k`) and earlier locals (`.loc j`), and return
   satisfies `StepL` and keeps `F1Inv`; `recomputeOne_stepB_F1`, `pop_F1` (`BindH78`).
 * `lcStepsOK_F1 : LcStepsOK env (F1Inv env)`, hence WITHOUT any hypothesis about the steps: `drainHeap_F1`, `drain_once_F1` (`BindH79`).
 
+## PROVED HERE (milestone B4: the invariant between API actions, `stabilise`, API actions; `Proofs/BindH80.lean` … `BindH97.lean`)
+
+* `BindH.QInv1 env s` (`BindH80`): `Struct1` (structural invariant at rest: the heap holds EXACTLY the necessary stale nodes) + `F1Inv` + `VarsOK` + `ObsOK` + observers watch top-level nodes
+  that are not change detectors + all stamps from earlier rounds + EVERY valid non-stale node (necessary or not) satisfies its defining equation + nothing deferred.
+* programs: `BindH.ActionF1 env T a` (`T` = number of handles created so far): `create` of `const`/`var`/pure `map`/`fold`/`zip` over handles, `create (bind body (outer k))` with
+  `BodyF1 env T body` (for EVERY input value the closure's template consists of `const`/`lhsConst`/pure `map`/`fold` over handles `n0 … n(T-1)` and earlier locals), `observe`, `cloneObs`,
+  `dropObs`, `disallow`, the five write operations, `get`, `stabilise`, `isStable`, `stats`.
+* `step_create1` (incl. `createBind`), `step_observe1`, `step_cloneObs1`, `step_dropObs1`, `step_disallow1`, `writeVar_q1`, `step_write1`: each action that returns keeps `QInv1` (`BindH81–88`).
+* `addNewObservers_s1`, `unlinkDisallowedObservers_s1` (`BindH89–90`): the observer prefix of `stabilise` keeps the structure (cascades through bind nodes and scopes).
+* `recomputeOne_dkey`, `pop_dkey` (`BindH95–96`): every step of a drain leaves the observer tables, deferred lists, status alone and keeps kinds/scopes/observer lists of existing nodes.
+* `stabilise_F1` (`BindH97`): from `QInv1`, a successful `stabilise` with ARBITRARY pending new/disallowed observers ends in `QInv1`; variables unchanged; every necessary node valid,
+  non-stale, reading `evalB` in the final graph; the drain ran no node twice and no node of a generation that died in it.  `stabilise_reads_F1`: every in-use observer reads `evalB` of its node.
+* `BindH.den` (`BindH98`): the specification-level FROM-SCRATCH semantics — a bind's main node: evaluate the lhs, apply the closure `env.body` to that value, evaluate the template it
+  yields (`denT`); no node created by a closure is looked at.  `GenOK env s` ("generations are current"): for every non-stale change detector the bind's registered nodes and rhs are the
+  image (`ElabOf`) of the template for the CURRENT lhs value.  `closure_elab` (`BindH101–102`): the closure run registers exactly that image.  `den_of_consistent_fuel` (`BindH99–100`):
+  with `GenOK`, the stored value of every necessary top-level node is `den`.
+
+## PROVED HERE (whole histories; `Proofs/BindH103.lean` … `BindH111.lean`)
+
+* `lcStepsOK_gen`, `drainHeap_gen`, `stabilise_gen`, `step_gen`, `genOK_init` (`BindH103–105`): `GenOK` ("generations are current") is kept by every step of a drain, by `stabilise`, by every API action.
+* `stabilise_reads_den` (`BindH105`): after a `stabilise` every in-use observer reads `den env s' k node` — the specification-level from-scratch value.
+* `DInv.orderInv` (`BindH106`): the drain invariant implies the hypotheses `OrderInv` of the B1 ordering lemmas (given that bind records name change detectors).
+* `BindH.HistF1 env T acts` (`BindH109`): a history of the fragment (`ActionF1` for each action, `T` counting the handles created so far); `step_q1`, `qinv1_init`, `history_q1`.
+* `BindH.QG env s := QInv1 env s ∧ GenOK env s`; `step_F1`, `history_F1`: EVERY state reached from `State.init N d` by a history of the fragment (that runs without panic) satisfies `QG`;
+  `history_stabilise_F1`: at EVERY `stabilise` of such a history: the state before satisfies `QG`, the `stabilise` returns with all conclusions of `stabilise_F1`, and every in-use observer reads
+  `den` of its node (`BindH111`).
+* Non-vacuity (`BindH110–111`): `exHistB` (two vars; `bind b0 v0` whose closure creates `map f0 [n1, n1]` on an even and `map f0 [n1]` on an odd lhs value; observe; stabilise; `v0 := 1`;
+  stabilise; `v1 := 5`; stabilise) is a history of the fragment, runs (kernel evaluation), reads `2`, `1`, `5` after the three stabilises; at the second one the closure variant switches:
+  node 4 is invalidated and node 5 created (`exHistB_switch`).
+
 ## ASSUMED (explicit hypotheses), NOT PROVED HERE
 
-Outside fragments F0/F1 (nested binds, closures referring to nodes younger than the bind, `map_ref`, `map_with_old`, expert nodes, user cutoffs, effects), `LcStepsOK env Aux` (the structural half, milestone B2: that `recomputeOne` on a change detector — closure run, `elabTemplate`, `changeChildBindRhs`, `adjustHeights`,
+PARTIAL CORRECTNESS throughout: every theorem assumes that the call / the history returns `(.ok _, s')` (no panic, enough fuel); total correctness (that valid histories with binds never panic)
+is NOT proved here.  Outside fragments F0/F1 (nested binds, closures referring to nodes younger than the bind, `map_ref`, `map_with_old`, expert nodes, user cutoffs, effects), `LcStepsOK env Aux` (the structural half, milestone B2: that `recomputeOne` on a change detector — closure run, `elabTemplate`, `changeChildBindRhs`, `adjustHeights`,
 invalidation of the old generation — satisfies `StepL`) is a HYPOTHESIS of the drain theorems here.  It was validated by running the Boolean versions of `DInv`,
 `StepRelB`, `StepL` (`BindH.dinvB`, `stepRelBReport`, `stepLReport`) on every step of the drains of 400 generated histories of the fragment (9009 steps, 1739 runs of
 change detectors, 0 violations).  The B1 theorems take `OrderInv` as a hypothesis; `DInv` implies what they need.  The theorems say nothing about INVALID popped nodes
@@ -269,6 +308,96 @@ theorem recomputeOne_lcF1 {env : Env} {fuel n b : Nat} {s s' : State} {r : Optio
     (h : (recomputeOne env fuel n).run.run s = (.ok r, s')) :
     (∃ br br', StepL env n b br br' r s s') ∧ F1Inv env s' :=
   BindH.recomputeOne_lcF1 (closure_spec1 env) (relink_spec1 env) (inval_spec1 env) I A hk h
+
+/-! ## B4: `stabilise` and the API, programs with binds -/
+
+/-- **`stabilise` on a program with binds** (fragment F1), arbitrary pending observers: see `Stabilised1` for the conclusions (invariant again, values = `evalB`, at most once, …). -/
+theorem stabilise_F1 {env : Env} {fuel : Nat} {s s' : State} (Q : QInv1 env s)
+    (h : (stabilise env fuel).run.run s = (.ok (), s')) : Stabilised1 env fuel s s' :=
+  BindH.stabilise_F1 Q h
+
+/-- after a `stabilise` every in-use observer reads the from-scratch value `evalB` of its node; every observer is in use or unlinked -/
+theorem stabilise_reads_F1 {env : Env} {fuel : Nat} {s s' : State} (Q : QInv1 env s)
+    (h : (stabilise env fuel).run.run s = (.ok (), s')) : ReadsOK1 env s' ∧ Quiet.ObsSettled s' :=
+  BindH.stabilise_reads_F1 Q h
+
+/-- creating a node — including `bind` — keeps the invariant between actions -/
+theorem step_create1 {env : Env} {s s' : State} {i : Instr} {tokens : Array Nat} {r : String × Array Nat}
+    (Q : QInv1 env s) (hi : InstrTop env s.top.size i)
+    (h : (stepAction env (.create i) tokens).run.run s = (.ok r, s')) : QInv1 env s' :=
+  BindH.step_create1 Q hi h
+
+/-- a write outside `stabilise` keeps the invariant between actions -/
+theorem writeVar_q1 {env : Env} {s s' : State} {v : Nat} {f : Val → Val} {isSet : Bool} {r : Val}
+    (Q : QInv1 env s) (h : (writeVar v f isSet).run.run s = (.ok r, s')) :
+    QInv1 env s' ∧ ∃ vc, s.vars[v]? = some vc ∧ r = vc.value ∧
+      s'.vars[v]? = some { vc with value := f vc.value, setAt := s.stabNum } ∧ (∀ w, w ≠ v → s'.vars[w]? = s.vars[w]?) :=
+  BindH.writeVar_q1 Q h
+
+/-- the closure run registers exactly the image of the closure's template for the lhs value -/
+theorem closure_elab {env : Env} {n b rhs : Nat} {br : BindRec} {s s' : State} {ex : Nat → Prop}
+    (h : (Inval.lhsRunClosure env n b br).run.run s = (.ok rhs, s'))
+    (I : GInv1 env s Quiet.allClosed ex []) (hah : AhhEmpty s) (hb : s.binds[b]? = some br) (hlc : br.lhsChange = n)
+    (hT : ∀ v, TemplOK env s n (env.body br.body v))
+    (htop : ∀ (k r : Nat), s.top[k]? = some r →
+      r < s.nodes.size ∧ (s.nodeD r).createdIn = .top ∧ ∀ b', (s.nodeD r).kind ≠ .bindLhsChange b') :
+    ∃ v l, (s.nodeD br.lhs).value = some v ∧ s'.binds[b]? = some { br with allNodesCreatedOnRhs := l } ∧
+      ElabOf s' (env.body br.body v) v l rhs :=
+  BindH.closure_elab h I hah hb hlc hT htop
+
+/-- with current generations, stored values are the specification-level from-scratch values `den` -/
+theorem den_of_consistent_fuel {env : Env} {s : State} (g : BGraph env s) (A : F1Inv env s) (G : GenOK env s)
+    (hall : ∀ m, s.isNecessary m = true → s.isStale m = false ∧ ConsistentB env s m)
+    (n : Nat) (hn : s.isNecessary n = true) (htop : (s.nodeD n).createdIn = .top) (k : Nat) (hk : n < k) :
+    den env s k n = (s.nodeD n).value :=
+  BindH.den_of_consistent_fuel g A G hall n hn htop k hk
+
+/-! ## whole histories of programs with binds -/
+
+/-- **Every API action of the fragment keeps the invariant** `QG = QInv1 ∧ GenOK`. -/
+theorem step_F1 {env : Env} {s s' : State} {a : Action} {tokens : Array Nat} {r : String × Array Nat}
+    (Q : QG env s) (ha : ActionF1 env s.top.size a) (h : (stepAction env a tokens).run.run s = (.ok r, s')) :
+    QG env s' :=
+  BindH.step_F1 Q ha h
+
+/-- **Whole histories.** Every state reached from the initial state by a history of the fragment (that runs without panic) satisfies the invariant. -/
+theorem history_F1 {env : Env} {N : Nat} {d : Bool} {acts : List Action} {s : State} {tk : Array Nat}
+    (hH : HistF1 env 0 acts) (h : Quiet.runActions env acts (State.init N d) #[] = .ok (s, tk)) : QG env s :=
+  BindH.history_F1 hH h
+
+/-- **C01 for programs with binds: every `stabilise` of a history.**  At each `stabilise` of a history of the fragment: all conclusions of `stabilise_F1` (`Stabilised1`: invariant again,
+every necessary node valid, non-stale, = `evalB`; the drain ran no node twice and no node of a generation that died in it), and every in-use observer reads the FROM-SCRATCH value `den`
+of its node: evaluate the lhs of each bind, run the closure on that value, evaluate the template it returns. -/
+theorem history_stabilise_F1 {env : Env} {N : Nat} {d : Bool} {as bs : List Action} {s : State} {tk : Array Nat}
+    (hH : HistF1 env 0 (as ++ Action.stabilise :: bs))
+    (h : Quiet.runActions env (as ++ Action.stabilise :: bs) (State.init N d) #[] = .ok (s, tk)) :
+    ∃ s1 tk1 s2, Quiet.runActions env as (State.init N d) #[] = .ok (s1, tk1) ∧ QG env s1 ∧
+      (stabilise env fuelDefault).run.run s1 = (.ok (), s2) ∧ Stabilised1 env fuelDefault s1 s2 ∧ QG env s2 ∧
+      (∀ (o : Nat) (ob : ObsRec), s2.observers[o]? = some ob → ob.state = .inUse →
+        ∃ v, s2.tryGetValue env o = .ok v ∧ ∀ k, ob.node < k → den env s2 k ob.node = some v) ∧
+      Quiet.runActions env bs s2 tk1 = .ok (s, tk) :=
+  BindH.history_stabilise_F1 hH h
+
+/-- after a `stabilise` every in-use observer reads `den` -/
+theorem stabilise_reads_den {env : Env} {fuel : Nat} {s s' : State} (Q : QInv1 env s) (G : GenOK env s)
+    (h : (stabilise env fuel).run.run s = (.ok (), s')) :
+    ∀ (o : Nat) (ob : ObsRec), s'.observers[o]? = some ob → ob.state = .inUse →
+      ∃ v, s'.tryGetValue env o = .ok v ∧ ∀ k, ob.node < k → den env s' k ob.node = some v :=
+  BindH.stabilise_reads_den Q G h
+
+/-- the drain invariant implies the hypotheses of the B1 ordering lemmas -/
+theorem orderInv_of_dinv {env : Env} {s : State} {x : Option Nat} (I : DInv env s x)
+    (hrec : ∀ (b : Nat) (br : BindRec), s.binds[b]? = some br → (s.nodeD br.lhsChange).kind = .bindLhsChange b) :
+    OrderInv s x :=
+  I.orderInv hrec
+
+/-- non-vacuity: the example history with a bind whose lhs changes is in the fragment, runs, ends in a state satisfying the invariant, and reads `1 + 1`, `1`, `5` after its three stabilises;
+at the second stabilise the closure switches variants: node 4 (the first run's `map f0 [1,1]`) is invalid afterwards and node 5 (`map f0 [1]`) has been created -/
+example : HistF1 bEnv 0 exHistB ∧
+    (∃ s tk, Quiet.runActions bEnv exHistB (State.init 128 true) #[] = .ok (s, tk) ∧ QG bEnv s) ∧
+    C2h.readB bEnv (exHistB.take 5) 0 = some (.int 2) ∧ C2h.readB bEnv (exHistB.take 7) 0 = some (.int 1) ∧
+    C2h.readB bEnv exHistB 0 = some (.int 5) :=
+  ⟨exHistB_F1.1, exHistB_F1.2, exHistB_reads.1, exHistB_reads.2.1, exHistB_reads.2.2⟩
 
 /-! ### non-vacuity of the drain invariant and of the step relation for change detectors
 
